@@ -19,6 +19,20 @@ def _opt(x):
     return "none" if x is None else str(x)
 
 
+def _pint(value, nbits, flags):
+    """QPACK prefixed integer (RFC 9204 4.1.1)"""
+    lim = (1 << nbits) - 1
+    if value < lim:
+        return bytes([flags | value])
+    out = bytearray([flags | lim])
+    value -= lim
+    while value >= 128:
+        out.append(value % 128 + 128)
+        value //= 128
+    out.append(value)
+    return bytes(out)
+
+
 def parse_headers(tok):
     """`-` = empty list; else comma separated `<namehex>:<valuehex>` (either may be empty)"""
     if tok == "-":
@@ -99,6 +113,30 @@ class H3ValidateImpl:
             assert evs == [] and self.quic.closed is None
         else:
             self.sid = 0
+        # peer QPACK encoder stream: stream type 2, "set dynamic table capacity 4096";
+        # inserts are queued until `h3v.unblock`
+        self.enc_sid = (7 if is_client else 6)
+        evs = self.conn.handle_event(self.SDR(data=b"\x02" + _pint(4096, 5, 0x20), end_stream=False, stream_id=self.enc_sid))
+        assert evs == [] and self.quic.closed is None
+        self.inserts = 0
+        self.queued = b""
+
+    def blocking_block(self, hs):
+        """a QPACK header block for `hs` (hand-encoded, no Huffman) whose first field
+        references a dynamic-table entry inserted by encoder-stream bytes that are
+        only queued: decoding blocks until they are delivered"""
+        name, value = hs[0]
+        self.queued += _pint(len(name), 5, 0x40) + name + _pint(len(value), 7, 0x00) + value
+        self.inserts += 1
+        ric = self.inserts
+        block = _pint(ric % 256 + 1, 8, 0) + b"\x00" + b"\x80"      # base = ric, newest entry
+        for n, v in hs[1:]:
+            block += _pint(len(n), 3, 0x20) + n + _pint(len(v), 7, 0x00) + v
+        return block
+
+    def blocked(self):
+        st = self.stream()
+        return st is not None and st.blocked
 
     def stream(self):
         return self.conn._stream.get(self.sid)
@@ -114,18 +152,19 @@ class H3ValidateImpl:
             return "done=1"
         st = self.stream()
         if st is None:
-            return "hs=0 ecl=none cl=0 rem=0 re=0 done=0"
+            return "hs=0 ecl=none cl=0 rem=0 re=0 blk=0 buf=0 done=0"
         return (f"hs={st.headers_recv_state.value} ecl={_opt(st.expected_content_length)} "
-                f"cl={st.content_length} rem={self.rem()} re={1 if st.receiving_ended else 0} done=0")
+                f"cl={st.content_length} rem={self.rem()} re={1 if st.receiving_ended else 0} "
+                f"blk={1 if st.blocked else 0} buf={1 if (st.blocked and st.buffer) else 0} done=0")
 
     def encode_headers(self, hs):
         e, frame = self.enc.encode(self.sid, hs)
         assert e == b""      # no dynamic table: nothing on the encoder stream
         return frame
 
-    def feed(self, data, fin):
+    def feed(self, data, fin, sid=None):
         closed_before = self.quic.closed
-        evs = self.conn.handle_event(self.SDR(data=data, end_stream=fin, stream_id=self.sid))
+        evs = self.conn.handle_event(self.SDR(data=data, end_stream=fin, stream_id=self.sid if sid is None else sid))
         if self.quic.closed is not None and closed_before is None:
             assert evs == []
             return f"err H3Error({self.quic.closed[0]}) | " + self.show()
@@ -180,9 +219,28 @@ class H3ValidateImpl:
                 return "ok | " + self.show()
             if self.conn is None:
                 return "bad-op"
-            if self.conn._is_done and op in ("h3v.hdr", "h3v.pp", "h3v.hdrdata", "h3v.data", "h3v.frag", "h3v.fin", "h3v.other"):
+            if self.conn._is_done and op in ("h3v.hdr", "h3v.pp", "h3v.hdrdata", "h3v.data", "h3v.frag", "h3v.fin", "h3v.other",
+                                               "h3v.hdrb", "h3v.ppb", "h3v.unblock"):
                 # nothing is looked at any more: handle_event returns [] at once
                 return self.feed(b"\x00", op == "h3v.fin" or t[-1] == "1")
+            if op in ("h3v.hdrb", "h3v.ppb"):
+                hs = parse_headers(t[1])
+                fin = t[2] == "1"
+                if self.blocked() or self.rem() != 0 or not hs or any(len(n) == 0 for n, _ in hs):
+                    return "bad-op"
+                block = self.blocking_block(hs)
+                if op == "h3v.hdrb":
+                    data = self.frame(h3c.FrameType.HEADERS, block)
+                else:
+                    data = self.frame(h3c.FrameType.PUSH_PROMISE, self.uvar(0) + block)
+                return self.feed(data, fin)
+            if op == "h3v.unblock":
+                if not self.blocked():
+                    return "bad-op"
+                data, self.queued = self.queued, b""
+                return self.feed(data, False, sid=self.enc_sid)
+            if self.blocked() and (op == "h3v.frag" or (op == "h3v.data" and t[1] != t[2])):
+                return "bad-op"      # only complete frames are buffered behind a blocked frame
             if op in ("h3v.hdr", "h3v.pp"):
                 hs = parse_headers(t[1])
                 fin = t[2] == "1"
